@@ -13,6 +13,7 @@
      measures_numbered nc s = s with the k-th qpd_measure marker (list order) replaced by Measure writing clbit nc + k
      spec env nc c1         = (measures_numbered nc (flat_map (splice env) c1), max 1 #markers)                      *)
 From CKT Require Import Common.Base Common.Circ Model.Decompose Proofs.DecomposeP.
+From CKT Require Import Model.DecomposeEq Proofs.DecomposeEqP.
 
 (* the running-offset implementation equals the declarative splice, for ALL circuits, groupings and map choices *)
 Theorem c14_splice : forall env c nc ids ms,
@@ -151,6 +152,53 @@ Theorem c14_setter_invariant : forall env b h m l qs cs,
   setter env b (Z.of_nat m) = Ok tt <-> wfb env (mkI (Qpd1 b h (Some m) l) qs cs) = true.
 Proof. exact setter_wfb. Qed.
 
+(* ---------------- QPDBasis equality modelled (Model/DecomposeEq.v) ----------------
+   decompose_r re c nc ids maps : the same function on circuits whose basis handles are OBJECT identities; `re` gives
+   every basis object its qubit count, maps and exact coefficient vector; the comparison made by the validation is the
+   model function rbasis_eqb (QPDBasis.__eq__), no longer an equality the harness borrows from the implementation. *)
+
+(* QPDBasis.__eq__ holds exactly for bases with the same qubit count, the same maps AND the same coefficients *)
+Theorem c14_basis_eq : forall x y, rbasis_eqb x y = true <-> x = y.
+Proof. exact rbasis_eqb_spec. Qed.
+
+(* validation accepts => all members of every decomposition (the two halves of a pair) carry equal bases *)
+Theorem c14_accepted_pair_same_basis : forall re c ids,
+  validate_r re c ids = Ok tt ->
+  forall g p q, In g ids -> In p g -> In q g ->
+  exists B, basis_obj_at re c p = Some B /\ basis_obj_at re c q = Some B.
+Proof. exact accepted_pair_same_basis. Qed.
+
+(* ... and halves whose bases differ in the maps OR in the coefficients OR in the qubit count are refused *)
+Theorem c14_refuse_unequal_bases : forall re c nc ids maps g p q Bp Bq,
+  ids_in_range c ids -> In g ids -> In p g -> In q g ->
+  basis_obj_at re c p = Some Bp -> basis_obj_at re c q = Some Bq ->
+  (rmaps Bp <> rmaps Bq \/ rcoeffs Bp <> rcoeffs Bq \/ rnq Bp <> rnq Bq) ->
+  decompose_r re c nc ids maps = Refused.
+Proof. exact differing_basis_refused. Qed.
+
+(* refinement: with the equality modelled, the function IS the handle-based model on the quotient circuit (one handle
+   per class of equal objects, what the harness interning computes), so every theorem above lifts; wfb: setter invariant *)
+Theorem c14_refines : forall re c nc ids maps,
+  forallb (wfb (map rmaps re)) c = true ->
+  decompose_r re c nc ids maps = decompose (map rmaps re) (quotient re c) nc ids maps.
+Proof. exact decompose_r_refines. Qed.
+
+Theorem c14_validate_quotient : forall re c ids, validate (quotient re c) ids = validate_r re c ids.
+Proof. exact validate_quotient. Qed.
+
+(* the first loop splits EVERY two-qubit placeholder of an accepted request, wherever its group stands in
+   instruction_ids (before or after pairs, in any order), in place, and leaves none *)
+Theorem c14_all_2q_split : forall c ids,
+  valid_grouping c ids ->
+  (forall p, qpd2_at c p -> In p (ids_2q c ids)) /\
+  expand_2q c ids = Ok (flat_map split2 c) /\
+  (forall x, In x (flat_map split2 c) -> is_qpd2 x = false).
+Proof. exact all_2q_split. Qed.
+
+Theorem c14_2q_split_order_irrelevant : forall c ids ids',
+  valid_grouping c ids -> valid_grouping c ids' -> expand_2q c ids = expand_2q c ids'.
+Proof. exact expand_2q_order_irrelevant. Qed.
+
 (* ---------------- non-vacuity ---------------- *)
 (* B0: a two-qubit basis with empty sequences on either side and markers; B1: a one-qubit basis whose map 0 is empty *)
 Definition exB0 : basis :=
@@ -207,6 +255,34 @@ Example c14_ex_setter :
   setter exEnv 1 2%Z = Ok tt /\ setter exEnv 1 3%Z = Refused /\ setter exEnv 1 (-1)%Z = Refused /\ setter exEnv 0 (-4)%Z = Refused.
 Proof. vm_compute. repeat split; reflexivity. Qed.
 
+(* object handles: halves 1 and 6 of the pair hold DIFFERENT but equal basis objects (handles 0 and 2); object 3 has the maps
+   of object 0 and other coefficients, object 4 the coefficients of object 0 and other maps *)
+Definition exK : list coeff := [(1%Z, 2%positive); (1%Z, 4%positive); ((-1)%Z, 4%positive); (1%Z, 2%positive)].
+Definition exRe : renv :=
+  [ mkRB 2 exB0 exK; mkRB 1 exB1 [(1%Z, 1%positive); (1%Z, 1%positive); ((-1)%Z, 1%positive)]; mkRB 2 exB0 exK;
+    mkRB 2 exB0 [(1%Z, 2%positive); (1%Z, 4%positive); (1%Z, 4%positive); ((-1)%Z, 2%positive)];
+    mkRB 2 [ ([], [BGate 8]); ([BGate 1; BMeas], []); ([], []); ([BReset; BGate 2], [BMeas; BGate 3]) ] exK ].
+Definition exCr (b6 : nat) : circ :=
+  [ mkI (Gate 0) [0] []; mkI (Qpd1 0 1 None exL) [2] []; mkI (Qpd2 0 None None) [1; 0] [];
+    mkI (Gate 5) [0; 1] []; mkI (Qpd1 1 0 (Some 2) None) [2] []; mkI QpdMeasure [1] [];
+    mkI (Qpd1 b6 0 None exL) [0] []; mkI Measure [2] [0] ].
+
+Example c14_ex_objects :
+  validate_r exRe (exCr 2) exIds = Ok tt /\ forallb (wfb (map rmaps exRe)) (exCr 2) = true /\
+  quotient exRe (exCr 2) = exC /\
+  decompose_r exRe (exCr 2) 1 exIds (Some (map Some exMs)) = decompose exEnv exC 1 exIds (Some (map Some exMs)) /\
+  decompose_r exRe (exCr 3) 1 exIds (Some (map Some exMs)) = Refused /\      (* same maps, other coefficients *)
+  decompose_r exRe (exCr 4) 1 exIds (Some (map Some exMs)) = Refused.        (* same coefficients, other maps *)
+Proof. vm_compute. repeat split; reflexivity. Qed.
+
+(* a two-qubit placeholder listed AFTER the pair and one listed before it are both split *)
+Example c14_ex_2q_after_pair :
+  let c := [ mkI (Qpd2 0 (Some 0) None) [0; 1] []; mkI (Qpd1 0 0 (Some 1) None) [0] []; mkI (Qpd1 0 1 (Some 1) None) [1] [];
+             mkI (Qpd2 0 (Some 2) None) [1; 0] [] ] in
+  valid_grouping c [[3]; [2; 1]; [0]] /\ valid_grouping c [[1; 2]; [0]; [3]] /\
+  expand_2q c [[3]; [2; 1]; [0]] = Ok (flat_map split2 c) /\ length (flat_map split2 c) = 6.
+Proof. vm_compute. repeat split; reflexivity. Qed.
+
 (* the refusal classes are inhabited *)
 Example c14_ex_refusals :
   let S := fun l : list Z => Some (map Some l) in
@@ -244,6 +320,13 @@ Print Assumptions c14_never_crashes.
 Print Assumptions c14_refuse_map_out_of_range.
 Print Assumptions c14_omitted.
 Print Assumptions c14_omitted_never_crashes.
+Print Assumptions c14_basis_eq.
+Print Assumptions c14_accepted_pair_same_basis.
+Print Assumptions c14_refuse_unequal_bases.
+Print Assumptions c14_refines.
+Print Assumptions c14_validate_quotient.
+Print Assumptions c14_all_2q_split.
+Print Assumptions c14_2q_split_order_irrelevant.
 Print Assumptions c14_setter.
 Print Assumptions c14_setter_invariant.
 
